@@ -15,7 +15,8 @@ RULE = ("(a) exhaustive (parser state, next line kind) pairs: for each of the 42
         "tables + matcher/builder error model) predicts acceptance and the exact error list (text, position, discovery order, "
         "de-duplication, stop after the 11th); every case runs in collecting and stop-at-first-error mode and through "
         "GherkinEvents.enum (one parseError envelope per error, nothing else).  Monitor G8 checks every rejected document "
-        "generically.  Distinct = hash of the source text.")
+        "generically.  Distinct = hash of the source text."
+        " Also: table-heavy noisy documents (ragged tables at known rows), noisy documents on reused objects, every fourth parse from a TokenScanner object, the stream also with a stop-at-first-error parser (exactly the first error as one envelope).")
 ASSUMPTIONS = ["the simulator's expected-token lists and transitions are read from the sibling parsers (ruby/go/java/c/javascript), which agree among themselves",
                "pool lines have kinds known by construction (cross-checked against the keyword table by setup_cmd)"]
 DECIDING = ["sim_compared", "G8.evaluated", "stop_mode_compared", "enum_compared", "pairs_exercised"]
